@@ -1609,6 +1609,16 @@ fn restore_stack_frame(
 #[derive(Debug, Clone)]
 struct RestoreValues(Vec<Value>);
 
+/// The values popped for a call, in the order they were on the value
+/// stack: the receiver first, then the arguments from last to first.
+fn saved_call_values(receiver_value: &Value, arg_values: &[Value]) -> Vec<Value> {
+    let mut saved_values = vec![receiver_value.clone()];
+    for value in arg_values.iter().rev() {
+        saved_values.push(value.clone());
+    }
+    saved_values
+}
+
 fn eval_if(
     env: &mut Env,
     expr_value_is_used: bool,
@@ -2519,10 +2529,7 @@ fn check_arity(
     arg_values: &[Value],
 ) -> Result<(), (RestoreValues, EvalError)> {
     if arg_values.len() != expected {
-        let mut saved_values = vec![receiver_value.clone()];
-        for value in arg_values.iter().rev() {
-            saved_values.push(value.clone());
-        }
+        let saved_values = saved_call_values(receiver_value, arg_values);
 
         let error_position = if arg_values.len() > expected {
             arg_positions[expected].clone()
@@ -2627,10 +2634,7 @@ fn eval_built_in_call(
                 arg_values,
             )?;
 
-            let mut saved_values = vec![receiver_value.clone()];
-            for value in arg_values.iter().rev() {
-                saved_values.push(value.clone());
-            }
+            let saved_values = saved_call_values(receiver_value, arg_values);
 
             let msg = check_string(&arg_values[0], &arg_positions[0], saved_values.clone(), env)?;
             let message = ErrorMessage(vec![Text(msg.clone())]);
@@ -2654,11 +2658,7 @@ fn eval_built_in_call(
                 arg_values,
             )?;
 
-            let mut saved_values = vec![];
-            for value in arg_values.iter().rev() {
-                saved_values.push(value.clone());
-            }
-            saved_values.push(receiver_value.clone());
+            let saved_values = saved_call_values(receiver_value, arg_values);
 
             let s = check_string(&arg_values[0], &arg_positions[0], saved_values, env)?;
             match &session.stdout_stderr_mode {
@@ -2703,11 +2703,7 @@ fn eval_built_in_call(
                 arg_values,
             )?;
 
-            let mut saved_values = vec![];
-            for value in arg_values.iter().rev() {
-                saved_values.push(value.clone());
-            }
-            saved_values.push(receiver_value.clone());
+            let saved_values = saved_call_values(receiver_value, arg_values);
 
             let s = check_string(&arg_values[0], &arg_positions[0], saved_values, env)?;
             match &session.stdout_stderr_mode {
@@ -2754,11 +2750,7 @@ fn eval_built_in_call(
                 arg_values,
             )?;
 
-            let mut saved_values = vec![];
-            for value in arg_values.iter().rev() {
-                saved_values.push(value.clone());
-            }
-            saved_values.push(receiver_value.clone());
+            let saved_values = saved_call_values(receiver_value, arg_values);
 
             let s = check_string(&arg_values[0], &arg_positions[0], saved_values, env)?;
             match &session.stdout_stderr_mode {
@@ -2802,11 +2794,7 @@ fn eval_built_in_call(
                 arg_values,
             )?;
 
-            let mut saved_values = vec![];
-            for value in arg_values.iter().rev() {
-                saved_values.push(value.clone());
-            }
-            saved_values.push(receiver_value.clone());
+            let saved_values = saved_call_values(receiver_value, arg_values);
 
             let s = check_string(&arg_values[0], &arg_positions[0], saved_values, env)?;
             match &session.stdout_stderr_mode {
@@ -2877,11 +2865,7 @@ fn eval_built_in_call(
         }
         BuiltInFunctionKind::ShellRun => {
             if env.enforce_sandbox {
-                let mut saved_values = vec![];
-                for value in arg_values.iter().rev() {
-                    saved_values.push(value.clone());
-                }
-                saved_values.push(receiver_value.clone());
+                let saved_values = saved_call_values(receiver_value, arg_values);
 
                 return Err((
                     RestoreValues(saved_values),
@@ -2900,11 +2884,7 @@ fn eval_built_in_call(
                 arg_values,
             )?;
 
-            let mut saved_values = vec![];
-            for value in arg_values.iter().rev() {
-                saved_values.push(value.clone());
-            }
-            saved_values.push(receiver_value.clone());
+            let saved_values = saved_call_values(receiver_value, arg_values);
 
             let s = check_string(&arg_values[0], &arg_positions[0], saved_values, env)?;
             match as_string_list(&arg_values[1]) {
@@ -2945,11 +2925,7 @@ fn eval_built_in_call(
                     }
                 }
                 Err(v) => {
-                    let mut saved_values = vec![];
-                    for value in arg_values.iter().rev() {
-                        saved_values.push(value.clone());
-                    }
-                    saved_values.push(receiver_value.clone());
+                    let saved_values = saved_call_values(receiver_value, arg_values);
 
                     let message = format_type_error(
                         &TypeName {
@@ -3057,11 +3033,7 @@ fn eval_built_in_call(
                 ..
             } = arg_values[0].as_ref()
             else {
-                let mut saved_values = vec![];
-                for value in arg_values.iter().rev() {
-                    saved_values.push(value.clone());
-                }
-                saved_values.push(receiver_value.clone());
+                let saved_values = saved_call_values(receiver_value, arg_values);
 
                 let message = format_type_error(
                     &TypeName {
@@ -3113,11 +3085,7 @@ fn eval_built_in_call(
                 arg_values,
             )?;
 
-            let mut saved_values = vec![];
-            for value in arg_values.iter().rev() {
-                saved_values.push(value.clone());
-            }
-            saved_values.push(receiver_value.clone());
+            let saved_values = saved_call_values(receiver_value, arg_values);
 
             let type_name = check_string(&arg_values[0], &arg_positions[0], saved_values, env)?;
 
@@ -3144,11 +3112,7 @@ fn eval_built_in_call(
         }
         BuiltInFunctionKind::FsListDirectory => {
             if env.enforce_sandbox {
-                let mut saved_values = vec![];
-                for value in arg_values.iter().rev() {
-                    saved_values.push(value.clone());
-                }
-                saved_values.push(receiver_value.clone());
+                let saved_values = saved_call_values(receiver_value, arg_values);
 
                 return Err((
                     RestoreValues(saved_values),
@@ -3170,11 +3134,7 @@ fn eval_built_in_call(
             let path_s = match unwrap_path(&arg_values[0], env) {
                 Ok(s) => s,
                 Err(msg) => {
-                    let mut saved_values = vec![];
-                    for value in arg_values.iter().rev() {
-                        saved_values.push(value.clone());
-                        saved_values.push(receiver_value.clone());
-                    }
+                    let saved_values = saved_call_values(receiver_value, arg_values);
                     return Err((
                         RestoreValues(saved_values),
                         EvalError::Exception(ExceptionInfo {
@@ -3277,11 +3237,7 @@ fn eval_built_in_call(
                 arg_values,
             )?;
 
-            let mut saved_values = vec![];
-            for value in arg_values.iter().rev() {
-                saved_values.push(value.clone());
-            }
-            saved_values.push(receiver_value.clone());
+            let saved_values = saved_call_values(receiver_value, arg_values);
 
             let env_var_name = check_string(&arg_values[0], &arg_positions[0], saved_values, env)?;
 
@@ -3353,11 +3309,7 @@ fn eval_built_in_call(
             let path_s = match unwrap_path(&arg_values[0], env) {
                 Ok(s) => s,
                 Err(msg) => {
-                    let mut saved_values = vec![];
-                    for value in arg_values.iter().rev() {
-                        saved_values.push(value.clone());
-                        saved_values.push(receiver_value.clone());
-                    }
+                    let saved_values = saved_call_values(receiver_value, arg_values);
                     return Err((
                         RestoreValues(saved_values),
                         EvalError::Exception(ExceptionInfo {
@@ -3397,11 +3349,7 @@ fn eval_built_in_call(
         }
         BuiltInFunctionKind::FsWriteFile => {
             if env.enforce_sandbox {
-                let mut saved_values = vec![];
-                for value in arg_values.iter().rev() {
-                    saved_values.push(value.clone());
-                }
-                saved_values.push(receiver_value.clone());
+                let saved_values = saved_call_values(receiver_value, arg_values);
 
                 return Err((
                     RestoreValues(saved_values),
@@ -3420,22 +3368,14 @@ fn eval_built_in_call(
                 arg_values,
             )?;
 
-            let mut saved_values = vec![];
-            for value in arg_values.iter().rev() {
-                saved_values.push(value.clone());
-            }
-            saved_values.push(receiver_value.clone());
+            let saved_values = saved_call_values(receiver_value, arg_values);
 
             let content_s = check_string(&arg_values[0], &arg_positions[0], saved_values, env)?;
 
             let path_s = match unwrap_path(&arg_values[1], env) {
                 Ok(s) => s,
                 Err(msg) => {
-                    let mut saved_values = vec![];
-                    for value in arg_values.iter().rev() {
-                        saved_values.push(value.clone());
-                        saved_values.push(receiver_value.clone());
-                    }
+                    let saved_values = saved_call_values(receiver_value, arg_values);
                     return Err((
                         RestoreValues(saved_values),
                         EvalError::Exception(ExceptionInfo {
@@ -3467,11 +3407,7 @@ fn eval_built_in_call(
         }
         BuiltInFunctionKind::FsWriteBytes => {
             if env.enforce_sandbox {
-                let mut saved_values = vec![];
-                for value in arg_values.iter().rev() {
-                    saved_values.push(value.clone());
-                }
-                saved_values.push(receiver_value.clone());
+                let saved_values = saved_call_values(receiver_value, arg_values);
 
                 return Err((
                     RestoreValues(saved_values),
@@ -3493,11 +3429,7 @@ fn eval_built_in_call(
             let items = match arg_values[0].as_ref() {
                 Value_::List { items, .. } => items.clone(),
                 _ => {
-                    let mut saved_values = vec![];
-                    for value in arg_values.iter().rev() {
-                        saved_values.push(value.clone());
-                    }
-                    saved_values.push(receiver_value.clone());
+                    let saved_values = saved_call_values(receiver_value, arg_values);
 
                     return Err((
                         RestoreValues(saved_values),
@@ -3520,11 +3452,7 @@ fn eval_built_in_call(
                 let i = match item.as_ref() {
                     Value_::Int(i) => *i,
                     _ => {
-                        let mut saved_values = vec![];
-                        for value in arg_values.iter().rev() {
-                            saved_values.push(value.clone());
-                        }
-                        saved_values.push(receiver_value.clone());
+                        let saved_values = saved_call_values(receiver_value, arg_values);
 
                         return Err((
                             RestoreValues(saved_values),
@@ -3541,11 +3469,7 @@ fn eval_built_in_call(
                 };
 
                 if !(0..=255).contains(&i) {
-                    let mut saved_values = vec![];
-                    for value in arg_values.iter().rev() {
-                        saved_values.push(value.clone());
-                    }
-                    saved_values.push(receiver_value.clone());
+                    let saved_values = saved_call_values(receiver_value, arg_values);
 
                     return Err((
                         RestoreValues(saved_values),
@@ -3563,20 +3487,10 @@ fn eval_built_in_call(
                 bytes.push(i as u8);
             }
 
-            let mut saved_values = vec![];
-            for value in arg_values.iter().rev() {
-                saved_values.push(value.clone());
-            }
-            saved_values.push(receiver_value.clone());
-
             let path_s = match unwrap_path(&arg_values[1], env) {
                 Ok(s) => s,
                 Err(msg) => {
-                    let mut saved_values = vec![];
-                    for value in arg_values.iter().rev() {
-                        saved_values.push(value.clone());
-                        saved_values.push(receiver_value.clone());
-                    }
+                    let saved_values = saved_call_values(receiver_value, arg_values);
                     return Err((
                         RestoreValues(saved_values),
                         EvalError::Exception(ExceptionInfo {
@@ -3608,11 +3522,7 @@ fn eval_built_in_call(
         }
         BuiltInFunctionKind::FsCreateDir => {
             if env.enforce_sandbox {
-                let mut saved_values = vec![];
-                for value in arg_values.iter().rev() {
-                    saved_values.push(value.clone());
-                }
-                saved_values.push(receiver_value.clone());
+                let saved_values = saved_call_values(receiver_value, arg_values);
 
                 return Err((
                     RestoreValues(saved_values),
@@ -3634,11 +3544,7 @@ fn eval_built_in_call(
             let path_s = match unwrap_path(&arg_values[0], env) {
                 Ok(s) => s,
                 Err(message) => {
-                    let mut saved_values = vec![];
-                    for value in arg_values.iter().rev() {
-                        saved_values.push(value.clone());
-                        saved_values.push(receiver_value.clone());
-                    }
+                    let saved_values = saved_call_values(receiver_value, arg_values);
                     return Err((
                         RestoreValues(saved_values),
                         EvalError::Exception(ExceptionInfo {
@@ -3669,11 +3575,7 @@ fn eval_built_in_call(
         }
         BuiltInFunctionKind::FsRemoveDir => {
             if env.enforce_sandbox {
-                let mut saved_values = vec![];
-                for value in arg_values.iter().rev() {
-                    saved_values.push(value.clone());
-                }
-                saved_values.push(receiver_value.clone());
+                let saved_values = saved_call_values(receiver_value, arg_values);
 
                 return Err((
                     RestoreValues(saved_values),
@@ -3695,11 +3597,7 @@ fn eval_built_in_call(
             let path_s = match unwrap_path(&arg_values[0], env) {
                 Ok(s) => s,
                 Err(message) => {
-                    let mut saved_values = vec![];
-                    for value in arg_values.iter().rev() {
-                        saved_values.push(value.clone());
-                        saved_values.push(receiver_value.clone());
-                    }
+                    let saved_values = saved_call_values(receiver_value, arg_values);
                     return Err((
                         RestoreValues(saved_values),
                         EvalError::Exception(ExceptionInfo {
@@ -3730,11 +3628,7 @@ fn eval_built_in_call(
         }
         BuiltInFunctionKind::FsCopyFile => {
             if env.enforce_sandbox {
-                let mut saved_values = vec![];
-                for value in arg_values.iter().rev() {
-                    saved_values.push(value.clone());
-                }
-                saved_values.push(receiver_value.clone());
+                let saved_values = saved_call_values(receiver_value, arg_values);
 
                 return Err((
                     RestoreValues(saved_values),
@@ -3756,11 +3650,7 @@ fn eval_built_in_call(
             let src_path_s = match unwrap_path(&arg_values[0], env) {
                 Ok(s) => s,
                 Err(msg) => {
-                    let mut saved_values = vec![];
-                    for value in arg_values.iter().rev() {
-                        saved_values.push(value.clone());
-                        saved_values.push(receiver_value.clone());
-                    }
+                    let saved_values = saved_call_values(receiver_value, arg_values);
                     return Err((
                         RestoreValues(saved_values),
                         EvalError::Exception(ExceptionInfo {
@@ -3774,11 +3664,7 @@ fn eval_built_in_call(
             let dest_path_s = match unwrap_path(&arg_values[1], env) {
                 Ok(s) => s,
                 Err(msg) => {
-                    let mut saved_values = vec![];
-                    for value in arg_values.iter().rev() {
-                        saved_values.push(value.clone());
-                        saved_values.push(receiver_value.clone());
-                    }
+                    let saved_values = saved_call_values(receiver_value, arg_values);
                     return Err((
                         RestoreValues(saved_values),
                         EvalError::Exception(ExceptionInfo {
@@ -3815,11 +3701,7 @@ fn eval_built_in_call(
         }
         BuiltInFunctionKind::FsReadFile => {
             if env.enforce_sandbox {
-                let mut saved_values = vec![];
-                for value in arg_values.iter().rev() {
-                    saved_values.push(value.clone());
-                }
-                saved_values.push(receiver_value.clone());
+                let saved_values = saved_call_values(receiver_value, arg_values);
 
                 return Err((
                     RestoreValues(saved_values),
@@ -3841,11 +3723,7 @@ fn eval_built_in_call(
             let path_s = match unwrap_path(&arg_values[0], env) {
                 Ok(s) => s,
                 Err(msg) => {
-                    let mut saved_values = vec![];
-                    for value in arg_values.iter().rev() {
-                        saved_values.push(value.clone());
-                        saved_values.push(receiver_value.clone());
-                    }
+                    let saved_values = saved_call_values(receiver_value, arg_values);
                     return Err((
                         RestoreValues(saved_values),
                         EvalError::Exception(ExceptionInfo {
@@ -3890,11 +3768,7 @@ fn eval_built_in_call(
         }
         BuiltInFunctionKind::FsReadFileBytes => {
             if env.enforce_sandbox {
-                let mut saved_values = vec![];
-                for value in arg_values.iter().rev() {
-                    saved_values.push(value.clone());
-                }
-                saved_values.push(receiver_value.clone());
+                let saved_values = saved_call_values(receiver_value, arg_values);
 
                 return Err((
                     RestoreValues(saved_values),
@@ -3916,11 +3790,7 @@ fn eval_built_in_call(
             let path_s = match unwrap_path(&arg_values[0], env) {
                 Ok(s) => s,
                 Err(msg) => {
-                    let mut saved_values = vec![];
-                    for value in arg_values.iter().rev() {
-                        saved_values.push(value.clone());
-                        saved_values.push(receiver_value.clone());
-                    }
+                    let saved_values = saved_call_values(receiver_value, arg_values);
                     return Err((
                         RestoreValues(saved_values),
                         EvalError::Exception(ExceptionInfo {
@@ -3974,11 +3844,7 @@ fn eval_built_in_call(
         }
         BuiltInFunctionKind::FsRemoveFile => {
             if env.enforce_sandbox {
-                let mut saved_values = vec![];
-                for value in arg_values.iter().rev() {
-                    saved_values.push(value.clone());
-                }
-                saved_values.push(receiver_value.clone());
+                let saved_values = saved_call_values(receiver_value, arg_values);
 
                 return Err((
                     RestoreValues(saved_values),
@@ -4000,11 +3866,7 @@ fn eval_built_in_call(
             let path_s = match unwrap_path(&arg_values[0], env) {
                 Ok(s) => s,
                 Err(msg) => {
-                    let mut saved_values = vec![];
-                    for value in arg_values.iter().rev() {
-                        saved_values.push(value.clone());
-                        saved_values.push(receiver_value.clone());
-                    }
+                    let saved_values = saved_call_values(receiver_value, arg_values);
                     return Err((
                         RestoreValues(saved_values),
                         EvalError::Exception(ExceptionInfo {
@@ -4045,10 +3907,7 @@ fn eval_built_in_call(
                 arg_values,
             )?;
 
-            let mut saved_values = vec![receiver_value.clone()];
-            for value in arg_values.iter().rev() {
-                saved_values.push(value.clone());
-            }
+            let saved_values = saved_call_values(receiver_value, arg_values);
 
             let snippet =
                 check_string(&arg_values[0], &arg_positions[0], saved_values.clone(), env)?;
@@ -4084,10 +3943,7 @@ fn eval_built_in_call(
                 arg_values,
             )?;
 
-            let mut saved_values = vec![receiver_value.clone()];
-            for value in arg_values.iter().rev() {
-                saved_values.push(value.clone());
-            }
+            let saved_values = saved_call_values(receiver_value, arg_values);
 
             let src = check_string(&arg_values[0], &arg_positions[0], saved_values, env)?;
 
@@ -4132,10 +3988,7 @@ fn eval_built_in_call(
                 arg_values,
             )?;
 
-            let mut saved_values = vec![receiver_value.clone()];
-            for value in arg_values.iter().rev() {
-                saved_values.push(value.clone());
-            }
+            let saved_values = saved_call_values(receiver_value, arg_values);
 
             let namespace = match arg_values[0].as_ref() {
                 Value_::Namespace { ns_info, .. } => ns_info,
@@ -4187,10 +4040,7 @@ fn eval_built_in_call(
                 arg_values,
             )?;
 
-            let mut saved_values = vec![receiver_value.clone()];
-            for value in arg_values.iter().rev() {
-                saved_values.push(value.clone());
-            }
+            let saved_values = saved_call_values(receiver_value, arg_values);
 
             let name = check_string(&arg_values[0], &arg_positions[0], saved_values, env)?;
 
@@ -4228,10 +4078,7 @@ fn eval_built_in_call(
                 arg_values,
             )?;
 
-            let mut saved_values = vec![receiver_value.clone()];
-            for value in arg_values.iter().rev() {
-                saved_values.push(value.clone());
-            }
+            let saved_values = saved_call_values(receiver_value, arg_values);
 
             let type_name =
                 check_string(&arg_values[0], &arg_positions[0], saved_values.clone(), env)?;
@@ -4273,11 +4120,7 @@ fn eval_built_in_call(
             )?;
 
             let Value_::Namespace { ns_info, .. } = arg_values[0].as_ref() else {
-                let mut saved_values = vec![];
-                for value in arg_values.iter().rev() {
-                    saved_values.push(value.clone());
-                }
-                saved_values.push(receiver_value.clone());
+                let saved_values = saved_call_values(receiver_value, arg_values);
 
                 let message = format_type_error(
                     &TypeName {
@@ -4295,10 +4138,7 @@ fn eval_built_in_call(
                 ));
             };
 
-            let mut saved_values = vec![receiver_value.clone()];
-            for value in arg_values.iter().rev() {
-                saved_values.push(value.clone());
-            }
+            let saved_values = saved_call_values(receiver_value, arg_values);
 
             let name = check_string(&arg_values[1], &arg_positions[1], saved_values, env)?;
 
@@ -4342,10 +4182,7 @@ fn eval_built_in_call(
                 arg_values,
             )?;
 
-            let mut saved_values = vec![receiver_value.clone()];
-            for value in arg_values.iter().rev() {
-                saved_values.push(value.clone());
-            }
+            let saved_values = saved_call_values(receiver_value, arg_values);
 
             let type_name =
                 check_string(&arg_values[0], &arg_positions[0], saved_values.clone(), env)?;
@@ -4378,10 +4215,7 @@ fn eval_built_in_call(
                 arg_values,
             )?;
 
-            let mut saved_values = vec![receiver_value.clone()];
-            for value in arg_values.iter().rev() {
-                saved_values.push(value.clone());
-            }
+            let saved_values = saved_call_values(receiver_value, arg_values);
 
             let name = check_string(&arg_values[0], &arg_positions[0], saved_values, env)?;
 
@@ -4585,10 +4419,7 @@ fn eval_call(
             let mut bindings = bindings.clone();
 
             if fun_info.params.params.len() != arg_values.len() {
-                let mut saved_values = vec![receiver_value.clone()];
-                for value in arg_values.iter().rev() {
-                    saved_values.push(value.clone());
-                }
+                let saved_values = saved_call_values(&receiver_value, &arg_values);
 
                 let message = ErrorMessage(vec![Text(format!(
                     "Closure expects {} argument{}, but got {}",
@@ -4777,11 +4608,7 @@ fn eval_call(
             }
         }
         _ => {
-            let mut saved_values = vec![];
-            for value in arg_values.iter().rev() {
-                saved_values.push(value.clone());
-            }
-            saved_values.push(receiver_value.clone());
+            let saved_values = saved_call_values(&receiver_value, &arg_values);
 
             let message = format_type_error(
                 &TypeName {
@@ -4995,11 +4822,7 @@ fn check_param_types(
             };
 
             if let Err(msg) = check_type(arg_value, &param_ty, env) {
-                let mut saved_values = vec![];
-                saved_values.push(receiver_value.clone());
-                for value in arg_values.iter().rev() {
-                    saved_values.push(value.clone());
-                }
+                let saved_values = saved_call_values(receiver_value, arg_values);
 
                 return Err((
                     RestoreValues(saved_values),
@@ -5054,10 +4877,7 @@ fn eval_method_call(
     }
 
     let Some(receiver_type_and_methods) = env.types.get(&receiver_type_name) else {
-        let mut saved_values = vec![receiver_value.clone()];
-        for value in arg_values.iter().rev() {
-            saved_values.push(value.clone());
-        }
+        let saved_values = saved_call_values(&receiver_value, &arg_values);
 
         return Err((
             RestoreValues(saved_values),
@@ -5071,10 +4891,7 @@ fn eval_method_call(
     };
 
     let Some(receiver_method) = receiver_type_and_methods.methods.get(&meth_name.name) else {
-        let mut saved_values = vec![receiver_value.clone()];
-        for value in arg_values.iter().rev() {
-            saved_values.push(value.clone());
-        }
+        let saved_values = saved_call_values(&receiver_value, &arg_values);
 
         return Err((
             RestoreValues(saved_values),
@@ -5223,11 +5040,7 @@ fn eval_built_in_method_call(
                 arg_values,
             )?;
 
-            let mut saved_values = vec![];
-            for value in arg_values.iter().rev() {
-                saved_values.push(value.clone());
-            }
-            saved_values.push(receiver_value.clone());
+            let saved_values = saved_call_values(receiver_value, arg_values);
 
             let expected_key =
                 check_string(&arg_values[0], &arg_positions[0], saved_values.clone(), env)?;
@@ -5301,11 +5114,7 @@ fn eval_built_in_method_call(
                     }
                 }
                 _ => {
-                    let mut saved_values = vec![];
-                    for value in arg_values.iter().rev() {
-                        saved_values.push(value.clone());
-                    }
-                    saved_values.push(receiver_value.clone());
+                    let saved_values = saved_call_values(receiver_value, arg_values);
 
                     return Err((
                         RestoreValues(saved_values),
@@ -5335,11 +5144,7 @@ fn eval_built_in_method_call(
                 arg_values,
             )?;
 
-            let mut saved_values = vec![];
-            for value in arg_values.iter().rev() {
-                saved_values.push(value.clone());
-            }
-            saved_values.push(receiver_value.clone());
+            let saved_values = saved_call_values(receiver_value, arg_values);
 
             let key_to_remove =
                 check_string(&arg_values[0], &arg_positions[0], saved_values.clone(), env)?;
@@ -5384,11 +5189,7 @@ fn eval_built_in_method_call(
                 arg_values,
             )?;
 
-            let mut saved_values = vec![];
-            for value in arg_values.iter().rev() {
-                saved_values.push(value.clone());
-            }
-            saved_values.push(receiver_value.clone());
+            let saved_values = saved_call_values(receiver_value, arg_values);
 
             let key_to_insert =
                 check_string(&arg_values[0], &arg_positions[0], saved_values.clone(), env)?;
@@ -5442,11 +5243,7 @@ fn eval_built_in_method_call(
                     }
                 }
                 _ => {
-                    let mut saved_values = vec![];
-                    for value in arg_values.iter().rev() {
-                        saved_values.push(value.clone());
-                    }
-                    saved_values.push(receiver_value.clone());
+                    let saved_values = saved_call_values(receiver_value, arg_values);
 
                     return Err((
                         RestoreValues(saved_values),
@@ -5483,11 +5280,7 @@ fn eval_built_in_method_call(
                     }
                 }
                 _ => {
-                    let mut saved_values = vec![];
-                    for value in arg_values.iter().rev() {
-                        saved_values.push(value.clone());
-                    }
-                    saved_values.push(receiver_value.clone());
+                    let saved_values = saved_call_values(receiver_value, arg_values);
 
                     return Err((
                         RestoreValues(saved_values),
@@ -5524,11 +5317,7 @@ fn eval_built_in_method_call(
                     }
                 }
                 _ => {
-                    let mut saved_values = vec![];
-                    for value in arg_values.iter().rev() {
-                        saved_values.push(value.clone());
-                    }
-                    saved_values.push(receiver_value.clone());
+                    let saved_values = saved_call_values(receiver_value, arg_values);
 
                     return Err((
                         RestoreValues(saved_values),
@@ -5572,11 +5361,7 @@ fn eval_built_in_method_call(
                     }
                 }
                 _ => {
-                    let mut saved_values = vec![];
-                    for value in arg_values.iter().rev() {
-                        saved_values.push(value.clone());
-                    }
-                    saved_values.push(receiver_value.clone());
+                    let saved_values = saved_call_values(receiver_value, arg_values);
 
                     return Err((
                         RestoreValues(saved_values),
@@ -5622,11 +5407,7 @@ fn eval_built_in_method_call(
                     }
                 }
                 _ => {
-                    let mut saved_values = vec![];
-                    for value in arg_values.iter().rev() {
-                        saved_values.push(value.clone());
-                    }
-                    saved_values.push(receiver_value.clone());
+                    let saved_values = saved_call_values(receiver_value, arg_values);
 
                     return Err((
                         RestoreValues(saved_values),
@@ -5669,11 +5450,7 @@ fn eval_built_in_method_call(
                     }
                 }
                 (_, Value_::Int(_)) => {
-                    let mut saved_values = vec![];
-                    for value in arg_values.iter().rev() {
-                        saved_values.push(value.clone());
-                    }
-                    saved_values.push(receiver_value.clone());
+                    let saved_values = saved_call_values(receiver_value, arg_values);
 
                     return Err((
                         RestoreValues(saved_values),
@@ -5690,11 +5467,7 @@ fn eval_built_in_method_call(
                     ));
                 }
                 (_, _) => {
-                    let mut saved_values = vec![];
-                    for value in arg_values.iter().rev() {
-                        saved_values.push(value.clone());
-                    }
-                    saved_values.push(receiver_value.clone());
+                    let saved_values = saved_call_values(receiver_value, arg_values);
 
                     return Err((
                         RestoreValues(saved_values),
@@ -5729,11 +5502,7 @@ fn eval_built_in_method_call(
                     }
                 }
                 _ => {
-                    let mut saved_values = vec![];
-                    for value in arg_values.iter().rev() {
-                        saved_values.push(value.clone());
-                    }
-                    saved_values.push(receiver_value.clone());
+                    let saved_values = saved_call_values(receiver_value, arg_values);
 
                     return Err((
                         RestoreValues(saved_values),
@@ -5766,11 +5535,7 @@ fn eval_built_in_method_call(
             let (items, elem_type) = match receiver_value.as_ref() {
                 Value_::List { items, elem_type } => (items, elem_type),
                 _ => {
-                    let mut saved_values = vec![];
-                    for value in arg_values.iter().rev() {
-                        saved_values.push(value.clone());
-                    }
-                    saved_values.push(receiver_value.clone());
+                    let saved_values = saved_call_values(receiver_value, arg_values);
 
                     return Err((
                         RestoreValues(saved_values),
@@ -5791,11 +5556,7 @@ fn eval_built_in_method_call(
             let i_arg = match arg_values[0].as_ref() {
                 Value_::Int(i) => *i,
                 _ => {
-                    let mut saved_values = vec![];
-                    for value in arg_values.iter().rev() {
-                        saved_values.push(value.clone());
-                    }
-                    saved_values.push(receiver_value.clone());
+                    let saved_values = saved_call_values(receiver_value, arg_values);
 
                     return Err((
                         RestoreValues(saved_values),
@@ -5813,11 +5574,7 @@ fn eval_built_in_method_call(
             let j_arg = match arg_values[1].as_ref() {
                 Value_::Int(j) => *j,
                 _ => {
-                    let mut saved_values = vec![];
-                    for value in arg_values.iter().rev() {
-                        saved_values.push(value.clone());
-                    }
-                    saved_values.push(receiver_value.clone());
+                    let saved_values = saved_call_values(receiver_value, arg_values);
 
                     return Err((
                         RestoreValues(saved_values),
@@ -5855,11 +5612,7 @@ fn eval_built_in_method_call(
         }
         BuiltInMethodKind::PathExists => {
             if env.enforce_sandbox {
-                let mut saved_values = vec![];
-                for value in arg_values.iter().rev() {
-                    saved_values.push(value.clone());
-                }
-                saved_values.push(receiver_value.clone());
+                let saved_values = saved_call_values(receiver_value, arg_values);
 
                 return Err((
                     RestoreValues(saved_values),
@@ -5881,11 +5634,7 @@ fn eval_built_in_method_call(
             let path_s = match unwrap_path(receiver_value, env) {
                 Ok(s) => s,
                 Err(msg) => {
-                    let mut saved_values = vec![];
-                    for value in arg_values.iter().rev() {
-                        saved_values.push(value.clone());
-                        saved_values.push(receiver_value.clone());
-                    }
+                    let saved_values = saved_call_values(receiver_value, arg_values);
                     return Err((
                         RestoreValues(saved_values),
                         EvalError::Exception(ExceptionInfo {
@@ -5908,11 +5657,7 @@ fn eval_built_in_method_call(
         }
         BuiltInMethodKind::PathInfo => {
             if env.enforce_sandbox {
-                let mut saved_values = vec![];
-                for value in arg_values.iter().rev() {
-                    saved_values.push(value.clone());
-                }
-                saved_values.push(receiver_value.clone());
+                let saved_values = saved_call_values(receiver_value, arg_values);
 
                 return Err((
                     RestoreValues(saved_values),
@@ -5934,11 +5679,7 @@ fn eval_built_in_method_call(
             let path_s = match unwrap_path(receiver_value, env) {
                 Ok(s) => s,
                 Err(msg) => {
-                    let mut saved_values = vec![];
-                    for value in arg_values.iter().rev() {
-                        saved_values.push(value.clone());
-                        saved_values.push(receiver_value.clone());
-                    }
+                    let saved_values = saved_call_values(receiver_value, arg_values);
                     return Err((
                         RestoreValues(saved_values),
                         EvalError::Exception(ExceptionInfo {
@@ -6026,11 +5767,7 @@ fn eval_built_in_method_call(
                 arg_values,
             )?;
 
-            let mut saved_values = vec![];
-            for value in arg_values.iter().rev() {
-                saved_values.push(value.clone());
-            }
-            saved_values.push(receiver_value.clone());
+            let saved_values = saved_call_values(receiver_value, arg_values);
 
             let s = check_string(receiver_value, receiver_pos, saved_values, env)?;
             let value = match s.parse::<i64>() {
@@ -6054,11 +5791,7 @@ fn eval_built_in_method_call(
                 arg_values,
             )?;
 
-            let mut saved_values = vec![];
-            for value in arg_values.iter().rev() {
-                saved_values.push(value.clone());
-            }
-            saved_values.push(receiver_value.clone());
+            let saved_values = saved_call_values(receiver_value, arg_values);
 
             let s = check_string(receiver_value, receiver_pos, saved_values, env)?;
             let mut items = rpds::Vector::new();
@@ -6086,11 +5819,7 @@ fn eval_built_in_method_call(
                 arg_values,
             )?;
 
-            let mut saved_values = vec![];
-            for value in arg_values.iter().rev() {
-                saved_values.push(value.clone());
-            }
-            saved_values.push(receiver_value.clone());
+            let saved_values = saved_call_values(receiver_value, arg_values);
 
             let receiver_s = check_string(receiver_value, receiver_pos, saved_values.clone(), env)?;
             let arg_s = check_string(&arg_values[0], &arg_positions[0], saved_values, env)?;
@@ -6121,11 +5850,7 @@ fn eval_built_in_method_call(
                 arg_values,
             )?;
 
-            let mut saved_values = vec![];
-            for value in arg_values.iter().rev() {
-                saved_values.push(value.clone());
-            }
-            saved_values.push(receiver_value.clone());
+            let saved_values = saved_call_values(receiver_value, arg_values);
 
             let receiver_s = check_string(receiver_value, receiver_pos, saved_values.clone(), env)?;
             let arg_s = check_string(&arg_values[0], &arg_positions[0], saved_values, env)?;
@@ -6147,11 +5872,7 @@ fn eval_built_in_method_call(
                 arg_values,
             )?;
 
-            let mut saved_values = vec![];
-            for value in arg_values.iter().rev() {
-                saved_values.push(value.clone());
-            }
-            saved_values.push(receiver_value.clone());
+            let saved_values = saved_call_values(receiver_value, arg_values);
 
             let receiver_s = check_string(receiver_value, receiver_pos, saved_values.clone(), env)?;
             let arg_s = check_string(&arg_values[0], &arg_positions[0], saved_values, env)?;
@@ -6173,11 +5894,7 @@ fn eval_built_in_method_call(
                 arg_values,
             )?;
 
-            let mut saved_values = vec![];
-            for value in arg_values.iter().rev() {
-                saved_values.push(value.clone());
-            }
-            saved_values.push(receiver_value.clone());
+            let saved_values = saved_call_values(receiver_value, arg_values);
 
             let receiver_s = check_string(receiver_value, receiver_pos, saved_values.clone(), env)?;
 
@@ -6234,11 +5951,7 @@ fn eval_built_in_method_call(
                 arg_values,
             )?;
 
-            let mut saved_values = vec![];
-            for value in arg_values.iter().rev() {
-                saved_values.push(value.clone());
-            }
-            saved_values.push(receiver_value.clone());
+            let saved_values = saved_call_values(receiver_value, arg_values);
 
             let s = check_string(receiver_value, receiver_pos, saved_values, env)?;
             if expr_value_is_used {
@@ -6257,11 +5970,7 @@ fn eval_built_in_method_call(
                 arg_values,
             )?;
 
-            let mut saved_values = vec![];
-            for value in arg_values.iter().rev() {
-                saved_values.push(value.clone());
-            }
-            saved_values.push(receiver_value.clone());
+            let saved_values = saved_call_values(receiver_value, arg_values);
 
             let s = check_string(receiver_value, receiver_pos, saved_values, env)?;
             let lines = s
@@ -6295,21 +6004,13 @@ fn eval_built_in_method_call(
                 arg_values,
             )?;
 
-            let mut saved_values = vec![];
-            for value in arg_values.iter().rev() {
-                saved_values.push(value.clone());
-            }
-            saved_values.push(receiver_value.clone());
+            let saved_values = saved_call_values(receiver_value, arg_values);
 
             let s_arg = check_string(receiver_value, receiver_pos, saved_values.clone(), env)?;
             let from_arg = match arg_values[0].as_ref() {
                 Value_::Int(i) => i,
                 _ => {
-                    let mut saved_values = vec![];
-                    for value in arg_values.iter().rev() {
-                        saved_values.push(value.clone());
-                    }
-                    saved_values.push(receiver_value.clone());
+                    let saved_values = saved_call_values(receiver_value, arg_values);
 
                     return Err((
                         RestoreValues(saved_values),
@@ -6327,11 +6028,7 @@ fn eval_built_in_method_call(
             let to_arg = match arg_values[1].as_ref() {
                 Value_::Int(i) => i,
                 _ => {
-                    let mut saved_values = vec![];
-                    for value in arg_values.iter().rev() {
-                        saved_values.push(value.clone());
-                    }
-                    saved_values.push(receiver_value.clone());
+                    let saved_values = saved_call_values(receiver_value, arg_values);
 
                     return Err((
                         RestoreValues(saved_values),
@@ -6348,11 +6045,7 @@ fn eval_built_in_method_call(
             };
 
             if *from_arg < 0 {
-                let mut saved_values = vec![];
-                for value in arg_values.iter().rev() {
-                    saved_values.push(value.clone());
-                }
-                saved_values.push(receiver_value.clone());
+                let saved_values = saved_call_values(receiver_value, arg_values);
 
                 return Err((
                     RestoreValues(saved_values),
@@ -6368,11 +6061,7 @@ fn eval_built_in_method_call(
             }
 
             if from_arg > to_arg {
-                let mut saved_values = vec![];
-                for value in arg_values.iter().rev() {
-                    saved_values.push(value.clone());
-                }
-                saved_values.push(receiver_value.clone());
+                let saved_values = saved_call_values(receiver_value, arg_values);
 
                 let s_len = s_arg.chars().count();
                 return Err((
